@@ -473,6 +473,32 @@ def table(tier="quick"):
         lambda d: (lambda X=d.arr(6, 3, 4), Y=d.arr(6, 2), X0=other(d).arr(6, 3, 4), Y0=other(d).arr(6, 2):
                    twice(CP_PLSR(2, random_state=1), lambda m: m.fit(X0, Y0), lambda m: (m.fit(X, Y).predict(X), m.transform(X, Y), m.X_factors, m.Y_factors, m.coef_))),
         fam="FPlsr")
+    # (round 8) the remaining estimator classes of the library: REFIT_ROWS below names a refit row for EVERY class with a fit method found in the source
+    from tensorly.decomposition._tucker import Tucker_NN, Tucker_NN_HALS
+    from tensorly.contrib.decomposition import TensorTrain_OI
+
+    def refit(name, ep, make, fam, opts=None, dts=REALS, real=(), data=None):
+        data = data or (lambda d: d.arr(*SH))
+        add(name, ep, lambda d: (lambda X=data(d), X0=data(other(d)): twice(make(), lambda m: m.fit_transform(X0), lambda m: m.fit_transform(X))),
+            fam=fam, opts=opts, dts=dts, real=real)
+
+    def symm(d):
+        X = d.arr(3, 3, 3)
+        return X + X.transpose(1, 0, 2) + X.transpose(2, 1, 0) + X.transpose(0, 2, 1) + X.transpose(1, 2, 0) + X.transpose(2, 0, 1)
+    refit("class_RandomizedCP_refit", "tensorly.decomposition.RandomizedCP", lambda: dec.RandomizedCP(R, 8, n_iter_max=3, random_state=1, verbose=0),
+          "FRandParafac", dict(init="IRandom"))
+    refit("class_CP_NN_refit", "tensorly.decomposition.CP_NN", lambda: dec.CP_NN(R, n_iter_max=3, init="random", random_state=1), "FNNParafac", dict(init="IRandom"))
+    refit("class_SymmetricCP_refit", "tensorly.decomposition.SymmetricCP", lambda: dec.SymmetricCP(R, n_repeat=2, n_iteration=2), "FPower", data=symm)
+    refit("class_TensorRingALS_refit", "tensorly.decomposition.TensorRingALS", lambda: dec.TensorRingALS([2, 2, 2, 2], n_iter_max=3, random_state=1), "FTrAls")
+    refit("class_TensorRingALSSampled_refit", "tensorly.decomposition.TensorRingALSSampled",
+          lambda: dec.TensorRingALSSampled([2, 2, 2, 2], 10, n_iter_max=3, random_state=1), "FTrAlsSampled")
+    refit("class_TensorTrainMatrix_refit", "tensorly.decomposition.TensorTrainMatrix", lambda: dec.TensorTrainMatrix([1, 2, 1]), "FSvdChain", dts=ALL3,
+          data=lambda d: d.arr(2, 3, 2, 3))
+    refit("class_Tucker_NN_refit", "tensorly.decomposition._tucker.Tucker_NN", lambda: Tucker_NN(RK, n_iter_max=3, init="random", random_state=1),
+          "FNNTucker", dict(init="IRandom"))
+    refit("class_Tucker_NN_HALS_refit", "tensorly.decomposition._tucker.Tucker_NN_HALS", lambda: Tucker_NN_HALS(RK, n_iter_max=2, init="random", random_state=1),
+          "FNNTuckerHals", dict(init="IRandom", alg="fista"))
+    refit("class_TensorTrain_OI_refit", "tensorly.contrib.decomposition.TensorTrain_OI", lambda: TensorTrain_OI([1, 2, 2, 1], 2, True, False), "FSvdChain")    # (trajectory=False raises UnboundLocalError for most n_iter: a defect outside C18)
     add("tensor_train_OI", "tensorly.contrib.decomposition.tensor_train_OI", lambda d: (lambda X=d.arr(*SH): (tensor_train_OI(X, [1, 2, 2, 1], n_iter=1, return_errors=True), tensor_train_OI(X, [1, 2, 2, 1], n_iter=2, trajectory=True, return_errors=False))), fam="FSvdChain")
     add("tensor_ring_als_sampled_uniform", "tensorly.decomposition.tensor_ring_als_sampled",
         lambda d: (lambda X=d.arr(*SH): dec.tensor_ring_als_sampled(X, [2, 2, 2, 2], n_samples=10, n_iter_max=3, random_state=1, uniform_sampling=True)), fam="FTrAlsSampled", opts=dict(alt=True))
@@ -2445,6 +2471,119 @@ CANARY_SCAN_EXPECTED = {("cached_solver", "module-state-store"), ("last_scale", 
                         ("use_assigned_cache", "module-object-call")}
 
 
+# every estimator class of the library (a class with a fit... method, enumerated from the source on every run) -> the table row that fits ONE object of it twice,
+# first with data of the other precision.  A class that is not listed is a broken tie (fail closed on a new estimator).
+REFIT_ROWS = {"CP": "class_CP_refit", "Tucker": "class_Tucker_refit", "CP_NN_HALS": "class_CP_NN_HALS_refit", "ConstrainedCP": "class_ConstrainedCP_refit",
+              "TensorTrain": "class_TensorTrain_Ring_refit", "TensorRing": "class_TensorTrain_Ring_refit", "Parafac2": "class_Parafac2_refit",
+              "CPPower": "class_CPPower_refit", "CPRegressor": "cp_regressor_refit", "TuckerRegressor": "tucker_regressor_refit", "CP_PLSR": "cp_plsr_refit",
+              "RandomizedCP": "class_RandomizedCP_refit", "CP_NN": "class_CP_NN_refit", "SymmetricCP": "class_SymmetricCP_refit",
+              "TensorRingALS": "class_TensorRingALS_refit", "TensorRingALSSampled": "class_TensorRingALSSampled_refit",
+              "TensorTrainMatrix": "class_TensorTrainMatrix_refit", "Tucker_NN": "class_Tucker_NN_refit", "Tucker_NN_HALS": "class_Tucker_NN_HALS_refit",
+              "TensorTrain_OI": "class_TensorTrain_OI_refit"}
+REFIT_ABSTRACT = {"DecompositionMixin"}      # no constructor, fit() delegates to the subclass's fit_transform: analysed in every subclass
+
+INSTANCE_CANARY_SRC = """
+class Base:
+    def fit(self, X):
+        self.fit_transform(X)
+        return self
+
+
+class WarmStart(Base):
+    def __init__(self, rank):
+        self.rank = rank
+
+    def fit_transform(self, X):
+        if hasattr(self, "decomposition_"):
+            init = self.decomposition_
+        else:
+            init = "svd"
+        self.decomposition_ = solve(X, init)
+        return self.decomposition_
+
+
+class Clean(Base):
+    def __init__(self, rank, callback=None):
+        self.rank = rank
+        self.callback = callback
+
+    def fit_transform(self, X):
+        res = solve(X, self.rank)
+        if self.callback is not None:
+            self.callback(res)
+        self.decomposition_ = res
+        self.errors_ = []
+        return self.decomposition_
+
+
+class CachedGram:
+    def fit(self, X, y):
+        if self.gram_ is None:
+            self.gram_ = X.T @ X
+        self.coef_ = solve(self.gram_, X.T @ y)
+        return self
+
+    def predict(self, X):
+        return X @ self.coef_
+
+
+class OneBranch:
+    def fit(self, X):
+        if X.ndim == 2:
+            self.w_ = X.sum(0)
+        return self.w_ * X
+
+
+class Delegating:
+    def fit(self, X, y):
+        self._prepare(X)
+        self.coef_ = self.scale_ * y
+        return self
+
+    def _prepare(self, X):
+        self.scale_ = X.mean()
+
+    def fit_transform(self, X, y):
+        self.fit(X, y)
+        return self.transform(X)
+
+    def transform(self, X):
+        return X * self.coef_
+
+
+class Counter:
+    def fit(self, X):
+        self.n_seen_ += X.shape[0]
+        return self
+
+
+class Fallback:
+    def fit(self, X):
+        try:
+            self.a_ = risky(X)
+        except ValueError:
+            pass
+        return self.a_
+"""
+INSTANCE_CANARY_EXPECTED = {("WarmStart", "fit", "decomposition_"), ("WarmStart", "fit_transform", "decomposition_"), ("CachedGram", "fit", "gram_"),
+                            ("OneBranch", "fit", "w_"), ("Counter", "fit", "n_seen_"), ("Fallback", "fit", "a_")}
+
+
+def instance_canaries():
+    """error strings: the instance-state scanner must flag exactly the fit methods of the canary classes that read a fitted attribute before overwriting it
+    (warm start, cached Gram matrix, store on one branch only, counter, store that an exception can skip) and none of the clean ones (store then read,
+    delegation to a helper / to fit, a constructor-stored callback, fit -> fit_transform through a base class)"""
+    from harness.props import C18_hist as H
+    hits, classes = H.scan_instance_source(INSTANCE_CANARY_SRC, "<canary>")
+    got = {(h["class"].split("<canary>.", 1)[1], h["method"], h["attribute"]) for h in hits}
+    errs = []
+    if got != INSTANCE_CANARY_EXPECTED:
+        errs.append(f"instance-state scanner on the canary classes: missing {sorted(INSTANCE_CANARY_EXPECTED - got)}, unexpected {sorted(got - INSTANCE_CANARY_EXPECTED)}")
+    if {c["class"].split(".")[-1] for c in classes} != {"Base", "WarmStart", "Clean", "CachedGram", "OneBranch", "Delegating", "Counter", "Fallback"}:
+        errs.append("instance-state scanner on the canary classes: estimator classes found = " + str(sorted(c["class"] for c in classes)))
+    return errs
+
+
 def history_canaries():
     """([(name, translation, hist_free expected)], [error strings]): the translator must give the dtype-oblivious caches a persistent variable, the static
     scanner must flag exactly the stateful canary functions (and not fresh_solver / local_only / the instance attribute of Est.fit)"""
@@ -2793,7 +2932,11 @@ COMPLEX_ALSO = {
     "parafac_mask_bool_linesearch", "class_CP_mask_bool", "class_ConstrainedCP", "class_CPPower", "tensor_ring_als_sampled_uniform",
     "tensor_ring_als_ls_solve", "parafac2_conversions", "parafac2_normalise_no_weights", "higher_order_moment_einsum", "cp_regressor_matrix_y",
     "tucker_regressor_reg", "cp_plsr_vector_y", "reflective_correlation", "backend_randn_gamma",
-    "class_ConstrainedCP_refit", "class_CPPower_refit", "cp_regressor_refit", "tucker_regressor_refit", "cp_plsr_refit"}
+    "class_ConstrainedCP_refit", "class_CPPower_refit", "cp_regressor_refit", "tucker_regressor_refit", "cp_plsr_refit",
+    # (round 8) parafac2 accepts complex slices (unitary projections, 0c112da): its factors / projections AS RETURNED are not certified exact at source level
+    # (they pass through a nested closure and the line-search object's method), so 'complex stays complex' is carried for them by executions with complex data
+    "parafac2", "parafac2_svd_norm", "parafac2_linesearch", "parafac2_svd_rank_gt_dim", "class_Parafac2", "class_Parafac2_refit", "svd_decompress_parafac2",
+    "class_RandomizedCP_refit", "class_SymmetricCP_refit", "class_TensorRingALS_refit", "class_TensorTrain_OI_refit"}
 
 
 def dtypes_for(t, tier):
@@ -2859,6 +3002,8 @@ def run(chk):
         chk.count(key=("corpus", os.path.basename(fn)), nontrivial=True); chk.hist("stream", "corpus")
         if st == "timeout":
             chk.hist("skipped", "per-case timeout"); continue
+        if st != "ok" and any(w in str(info.get("error")) for w in H.RESOURCE_WORDS):
+            chk.hist("skipped", "per-case resource exhaustion (memory / processes)"); continue
         mask_dt = None if t["mask"] is None else (MASK_DT[t["mask"]] or item["dtype"])
         inputs = {"config": t["name"], "dtype": item["dtype"], "seed": item.get("seed", 0), "mask_dtype": mask_dt, "corpus": os.path.basename(fn)}
         if st != "ok":
@@ -2895,6 +3040,13 @@ def run(chk):
                     # a loaded machine is not a property violation: counted and reported as skipped
                     chk.hist("skipped", "per-case timeout")
                     n_skipped += 1
+                    continue
+                if st != "ok" and any(w in str(info.get("error")) for w in H.RESOURCE_WORDS):
+                    # the machine ran out of memory / processes during the call: counted and reported as skipped, not compared by the history passes
+                    chk.hist("skipped", "per-case resource exhaustion (memory / processes)")
+                    n_skipped += 1
+                    if seed == 0:
+                        parent_obs[(t["name"], data_dt)] = ("resources", [])
                     continue
                 if st != "ok" and data_dt not in t["dts"] and "complex128" not in t["dts"]:
                     # a real-data row extended to complex input: support for complex data is not what C18 states
@@ -2935,9 +3087,38 @@ def run(chk):
         chk.broken.append({"what": "C18 source-level tie: " + h["function"] + " keeps state that outlives the call (" + h["kind"] + " " + h["name"] + ", line " + str(h["line"]) +
                                    "): a value cached / stored there can reach a later call with data of another dtype; the dtype programs of Model/Dtype.v have no "
                                    "persistent variables, so the certification of this function and of its callers does not cover call sequences", "detail": h})
-    chk.notes.append(f"persistent-state scan of the source: {n_scanned} functions, {len(all_hits)} state sites, {len(open_hits)} outside the whitelist "
+    chk.notes.append(f"persistent-state scan of the source: {n_scanned} functions, {len(all_hits)} state sites, {len(open_hits)} outside the whitelist of "
+                     f"{H.WHITELISTED_SITES} sites under {len(H.SCAN_WHITELIST)} keys, each with its count and justification "
                      f"(backend selection / dispatch, import-time registration, einsum plugins' contraction-path caches); stale whitelist entries: {stale[:4]}")
     chk.hist("stream", "persistent-state scan")
+    chk.cov["persistent_state_whitelist"] = [{"function": k[0], "kind": k[1], "name": k[2], "sites": n_, "why": why} for k, (n_, why) in sorted(H.SCAN_WHITELIST.items())]
+    # (d) static, instance state: no fit method of an estimator class reads a fitted attribute before this call has overwritten it (hist_free with G = the
+    # fitted attributes of the object, session = the same object fitted again); every estimator class found in the source has a refit row in the table
+    inst_hits, est_classes = H.scan_instance_state(C.REPO)
+    grp = {}
+    for h in inst_hits:
+        grp.setdefault((h["class"], h["attribute"]), []).append(h)
+    for (cls_, attr_), hs_ in sorted(grp.items()):
+        h = min(hs_, key=lambda x: (len(x["via"]), x["line"]))       # the read itself (the shortest chain of self.method() calls); reported once per attribute
+        chk.broken.append({"what": "C18 source-level tie (instance state): " + cls_ + "." + h["method"] + " reads self." + attr_ + " (line " + str(h["line"]) +
+                                   (", via " + h["via"] if h["via"] else "") + ") before this call has overwritten it: what an EARLIER fit of the same object left there - "
+                                   "with the dtype of that fit's data - can reach the results of this fit (fit methods affected: " +
+                                   ", ".join(sorted({x["method"] for x in hs_})) + "); the refit rows cover only the option sets of the table",
+                           "detail": {"reads": hs_[:6]}})
+    tnames = {t["name"] for t in T}
+    for c_ in est_classes:
+        cn = c_["class"].rsplit(".", 1)[1]
+        chk.count(key=("estimator-class", c_["class"]), nontrivial=True); chk.hist("stream", "estimator classes (instance-state scan)")
+        if cn in REFIT_ABSTRACT:
+            continue
+        if REFIT_ROWS.get(cn) not in tnames:
+            chk.broken.append({"what": "C18 instance state: the estimator class " + c_["class"] + " (fit methods " + str(c_["fit_methods"]) + ") has no refit row in the "
+                                       "configuration table (the same object fitted twice, data of the other precision first): add one and list it in REFIT_ROWS",
+                               "detail": c_})
+    for e_ in instance_canaries():
+        chk.broken.append({"what": "C18 history-independence instrument self-test: " + e_, "detail": e_})
+    chk.notes.append(f"instance-state scan of the source: {len(est_classes)} estimator classes, {sum(len(c_['fitted_attributes']) for c_ in est_classes)} fitted attributes, "
+                     f"{len(inst_hits)} reads of a fitted attribute before it is overwritten in a fit method; every class has a refit row ({len(set(REFIT_ROWS.values()))} rows)")
     # ---- 3. non-vacuity of the line-search stream
     acc = {dt: linesearch_probe(dt) for dt in ("float32", "float64", "complex128")}
     chk.notes.append(f"parafac(linesearch=True) on near-collinear data, 30 sweeps: accepted line-search jumps per dtype = {acc}")
@@ -2967,7 +3148,7 @@ def run(chk):
                        "(i) history independence: every row (random rows included) again in fresh processes with the data dtypes in another order (float64 first, complex128 first; "
                        "thorough: complex64 first) - all rows in one process - and compared call by call with this process's float32-first pass; fingerprint of the library's persistent "
                        "state before / after the table pass; ast scan of all functions of the library for state that outlives a call; hist_free (Model/DtypeHist.v) inside Coq on every "
-                       "extracted program that refers to persistent state and on built-in canaries; 10 rows that fit the same estimator object twice with data of different precision")
+                       "extracted program that refers to persistent state and on built-in canaries; 19 rows that fit the same estimator object twice with data of different precision (one for every estimator class found in the source) and a must-define analysis of every fit method (no fitted attribute read before it is overwritten)")
     # ---- 3b. self-test of the ast translator against real executions (random straight-line functions)
     tcases, tmeta = translator_selftest_cases(random.Random(f"C18-tr-{chk.seed}"), 20 if chk.tier == "quick" else 150)
     tfailing, t_eval, tbroken = C.run_case_shards("C18", HEADER, "case", tcases, shard=300, tag="trself")
@@ -3201,9 +3382,9 @@ def run(chk):
                        "a mask is an indicator, not data: for every mask dtype (bool, int64, float of another precision) the expected dtype is the data's",
                        "real-valued-by-definition outputs (errors, norms, singular values, |weights|) of complex input are expected in the real type of the same precision"]
     chk.assumptions.append("call sequences: the per-call theorems extend to every session for programs without persistent variables (C18_stateless_history_independent); that the CODE "
-                           "keeps no state between calls is checked by the fail-closed instruments of harness/props/C18_hist.py, state kept on estimator instances only by the refit rows")
+                           "keeps no state between calls is checked by the fail-closed instruments of harness/props/C18_hist.py, state kept on estimator instances by the static must-define analysis of every fit method (no read of a fitted attribute before it is overwritten) and a refit row for every estimator class")
     chk.trusted = ["the ast -> dtype-program translator in harness/props/C18.py (call table, join of alternatives, loop unrolling, modular summaries of callees)",
-                   "the persistent-state scanner and snapshot in harness/props/C18_hist.py (what counts as state, the whitelist of 25 sites read by hand), tested on every run by canaries",
+                   "the persistent-state scanner and snapshot in harness/props/C18_hist.py (what counts as state, the whitelist of 25 sites read by hand, each with its justification in the evidence and the manifest note; the must-define analysis of fit methods), tested on every run by canaries",
                    "NumPy's dtype attribute of the returned arrays", "table of entry-point configurations (harness/props/C18.py) as the universe of 'public entry points'"]
     _install_known_loader()
     return chk.finish(CLASSIFIERS)
